@@ -1,0 +1,26 @@
+//go:build verif
+
+// Verification hook (build tag `verif`): build a Handler around a given allocator, so that a
+// test harness can control when allocations return. Nothing here exists in a normal build.
+
+package prefix
+
+import "github.com/coredhcp/coredhcp/plugins/allocators"
+
+// NewVerifHandler returns a Handler with empty records using alloc.
+func NewVerifHandler(alloc allocators.Allocator) *Handler {
+	return &Handler{Records: make(map[string][]lease), allocator: alloc}
+}
+
+// VerifRecords returns, per client key, the prefixes recorded (as strings).
+func (h *Handler) VerifRecords() map[string][]string {
+	h.Lock()
+	defer h.Unlock()
+	out := map[string][]string{}
+	for k, ls := range h.Records {
+		for _, l := range ls {
+			out[k] = append(out[k], l.Prefix.String())
+		}
+	}
+	return out
+}
